@@ -173,7 +173,8 @@ SwapInput(v, blk, sender, dir, q, limit, canOver) ==
   ELSE IF sender # v.cfg.engine THEN [ok |-> FALSE, v |-> v, q |-> 0, b |-> 0, err |-> "unauthorized"]
   ELSE LET b == InputPrice(v.cfg.D, dir, q, v.st.x, v.st.y)
        IN IF Bad(b) THEN [ok |-> FALSE, v |-> v, q |-> 0, b |-> 0, err |-> "price"]
-          ELSE IF q # 0 /\ limit # 0 /\ ((dir = "add" /\ b < limit) \/ (dir = "rem" /\ b > limit))
+          \* fix F20: the limit is compared for every amount, also an empty swap
+          ELSE IF limit # 0 /\ ((dir = "add" /\ b < limit) \/ (dir = "rem" /\ b > limit))
                THEN [ok |-> FALSE, v |-> v, q |-> 0, b |-> 0, err |-> "slippage"]
           ELSE LET u == UpdateReserve(v, blk, dir, q, b, canOver)
                IN [ok |-> u.ok, v |-> u.v, q |-> q, b |-> b, err |-> u.err]
@@ -185,7 +186,7 @@ SwapOutput(v, blk, sender, dir, b, limit) ==
   ELSE LET q  == OutputPrice(v.cfg.D, dir, b, v.st.x, v.st.y)
            ud == Flip(dir)
        IN IF Bad(q) THEN [ok |-> FALSE, v |-> v, q |-> 0, b |-> 0, err |-> "price"]
-          ELSE IF b # 0 /\ limit # 0 /\ ((ud = "rem" /\ q < limit) \/ (ud = "add" /\ q > limit))
+          ELSE IF limit # 0 /\ ((ud = "rem" /\ q < limit) \/ (ud = "add" /\ q > limit))
                THEN [ok |-> FALSE, v |-> v, q |-> 0, b |-> 0, err |-> "slippage"]
           ELSE LET u == UpdateReserve(v, blk, ud, q, b, TRUE)
                IN [ok |-> u.ok, v |-> u.v, q |-> q, b |-> b, err |-> u.err]
